@@ -59,12 +59,12 @@ def scripts (maxlen, locks):
 
 
 def free_scripts (maxlen, ops):
-  """Every sequence of operations up to the length (no ownership discipline), except those that never touch a
-  lock."""
+  """Every sequence of operations up to the length (no ownership discipline) that ends in a lock operation (a
+  yield after a task's last lock operation only delays its end: dominated by the script without it)."""
   out = []
   for n in range(1, maxlen + 1):
     for s in itertools.product(ops, repeat=n):
-      if any(o != "Y" for o in s): out.append(s)
+      if s[-1] != "Y": out.append(s)
   return out
 
 
